@@ -4,6 +4,7 @@ mod imp;
 mod model;
 mod oracles;
 mod prog;
+mod refint;
 mod rng;
 mod slices;
 
@@ -96,6 +97,10 @@ fn main() {
             "c02" => {
                 let (c, e) = slices::expr::cases(&mut rng, &tier, &driver);
                 (c, e, "all expression trees with 1 and 2 binary operators over 13 operators and leaf kinds (variable, numeral, string variable, zero) (thorough: a third of the 3-operator trees), every unary/binary operator pairing, and random trees of size 1..9 over literals, variables (set, unset, string), 3 unary + 13 binary operators, ABS, INT, with and without redundant parentheses; the text is rendered by the Lean spec with minimal parentheses".into())
+            }
+            "c03" => {
+                let (c, e) = slices::progs::cases(&mut rng, &tier);
+                (c, e, "grammar-generated structured programs (LET, PRINT ; ,, IF/THEN/ELSE with statement or line targets, GOTO, GOSUB/RETURN incl. runaway recursion, nested FOR/TO/STEP/NEXT incl. NEXT of an outer variable, READ/DATA/RESTORE, DIM and 1-3-dimensional cells, DEF FN with dynamic scoping, END, RND, forced runtime failures) compiled to numbered text; printed output and (error kind, line) compared with a reference interpreter over the syntax tree; non-trivial = more than two lines".into())
             }
             "c14" => {
                 let (c, e) = slices::list::cases(&mut rng, &tier);
